@@ -47,6 +47,18 @@ def _events(args):
             raise AttributeError("cds.chromosome_location of the chunk-built object is not on the twin's chromosome")
         return E.loc(B.chromosome_location)
 
+    def chunk_codons(c):
+        # the memoised tuple and the deprecated iterator scan_codon_locations() (documented: chunk-relative) are one list
+        import warnings
+
+        a = [E.loc(back(x)) for x in c.chunk_relative_codon_locations]
+        with warnings.catch_warnings():
+            warnings.simplefilter("ignore")
+            b = [E.loc(back(x)) for x in c.scan_codon_locations()]
+        if a != b:
+            raise AttributeError("scan_codon_locations() does not list the chunk-relative codons")
+        return a
+
     def twin_row(A, B, blocks, st, cds, frames, R, ws, we, route, ctor, mk_fresh=None):
         """the observations of one interval B built on the chunk against its whole-chromosome twin A"""
         row = ["twin", [blocks, st], [cds, st] if cds else [[], "e"], frames, list(R), ws, we, route, ctor]
@@ -62,7 +74,7 @@ def _events(args):
             c = B.cds
             row += [E.outcome(lambda: c.num_codons),
                     E.outcome(lambda: [E.loc(x) for x in c.chromosome_codon_locations]),
-                    E.outcome(lambda: [E.loc(back(x)) for x in c.chunk_relative_codon_locations]),
+                    E.outcome(lambda: chunk_codons(c)),
                     # the count is asked of a FRESH object half the time (before its codon list was ever built)
                     E.outcome(lambda: (mk_fresh().cds if (mk_fresh and (ws + we) % 2 == 0) else c).num_chunk_relative_codons)]
             c2 = mk_fresh().cds if mk_fresh else None  # fresh object: sequence before any codon listing
